@@ -20,8 +20,11 @@ import nlx
 
 RULE = ('random API-built designs (all 16 primitive ops, widths 1..130, registers with/without '
         'reset, multi-port memories, ROMs) x initial states x input sequences, plus one micro design per '
-        'operand width (quick: 1..40, 63-65, 127-130 and 16 seeded others <= 136; thorough: all 1..136) exercising concat/select/mask/register/memory at that width; every wire on every '
-        'cycle compared; a case is distinct by (design,stimulus) hash and non-trivial when at least '
+        'operand width (quick: 1..40, 63-65, 127-130 and 16 seeded others <= 136; thorough: all 1..136) exercising concat/select/mask/register/memory at that width, plus directed designs decorated with raw '
+        'Block.add_net nets whose destination is narrower than the natural result (every op, and registers narrower than '
+        'their next-input), driven wires nobody reads, rtl_asserts that fire and are caught while stepping goes on, and a '
+        'tracer that records only some wires (the others read through inspect); every wire on every '
+        'cycle compared, through SimulationTrace.trace and through Simulation.inspect; a case is distinct by (design,stimulus) hash and non-trivial when at least '
         'half of its non-constant wires took two or more values during the run')
 SWEEP_MAX = 136
 SWEEP_ALWAYS = list(range(1, 41)) + [63, 64, 65, 127, 128, 129, 130]   # quick tier: these + 16 seeded others
@@ -40,15 +43,24 @@ ASSUMPTIONS = ['ROM contents are tabulated at dump time (RomBlock._get_read_data
                'initial register/memory values and default_value are within range (legal_init)']
 
 
-def simulate(d, regmap, memmap, inputs, dflt):
+def simulate(d, regmap, memmap, inputs, dflt, track=None):
+    """every wire on every cycle, read both ways the property names: SimulationTrace.trace for the traced wires
+    and Simulation.inspect for all of them (track=None: wires_to_track='all'; else only the listed wires are
+    traced and the others are seen through inspect alone).  A firing rtl_assert added by gen_designs.decorate
+    is caught and stepping goes on: the cycle it fired in still happened."""
     block = d.block
-    tracer = pyrtl.SimulationTrace(wires_to_track='all', block=block)
+    tracer = pyrtl.SimulationTrace(wires_to_track='all' if track is None else list(track), block=block)
     sim = pyrtl.Simulation(tracer=tracer, register_value_map=dict(regmap),
                            memory_value_map={m: dict(c) for m, c in memmap.items()},
                            default_value=dflt, block=block)
+    seen, fired = [], 0
     for step in inputs:
-        sim.step(dict(step))
-    return sim, tracer
+        try:
+            sim.step(dict(step))
+        except gen_designs.AssertFired:
+            fired += 1
+        seen.append({w.name: sim.inspect(w.name) for w in block.wirevector_set})
+    return sim, tracer, seen, fired
 
 
 def driver_op(block, wname):
@@ -117,28 +129,57 @@ def build_case(ctx, i, wide_prob):
     return d, regmap, memmap, inputs, dflt
 
 
+def directed_case(ctx, i):
+    """random design decorated with raw narrowing nets, dangling wires and rtl_asserts; only part of the wires traced"""
+    rng = ctx.sub_rng('directed', i)
+    d = gen_designs.make_design(rng, wide_prob=0.1, n_ops=rng.randint(3, 10))
+    gen_designs.decorate(rng, d, n_raw=rng.randint(2, 5), n_dangling=rng.randint(0, 2), n_assert=rng.choice([0, 1, 1]))
+    regmap, memmap, inputs = gen_designs.make_stimulus(rng, d, rng.randint(3, 8))
+    named = sorted(w.name for w in d.block.wirevector_set if not isinstance(w, pyrtl.Const))
+    keep = set(w.name for w in d.dangling if rng.random() < 0.3)
+    track = [d.block.wirevector_by_name[nm] for nm in named
+             if (nm in keep or rng.random() < 0.5) and not (nm.startswith(('dangle', 'raw')) and nm not in keep)]
+    if not track:
+        track = [d.inputs[0]]
+    return d, regmap, memmap, inputs, 0, track
+
+
 def run(ctx):
     n = 150 if ctx.tier == 'quick' else 2500
+    ndir = 60 if ctx.tier == 'quick' else 1000
     cases = []
     exprs = []
-    todo = [('sweep', w) for w in sweep_widths(ctx)] + [('random', i) for i in range(n)]
+    todo = ([('sweep', w) for w in sweep_widths(ctx)] + [('random', i) for i in range(n)]
+            + [('directed', i) for i in range(ndir)])
     ctx.sub_rng('order').shuffle(todo)      # spreads the wide (slow to evaluate) cases over the shards
     for stream, i in todo:
+        track = None
         if stream == 'sweep':
             d, regmap, memmap, inputs, dflt = sweep_case(ctx, i)
             ctx.count('stream', 'sweep')
             i = 'w%d' % i
+        elif stream == 'directed':
+            d, regmap, memmap, inputs, dflt, track = directed_case(ctx, i)
+            ctx.count('stream', 'directed')
+            i = 'd%d' % i
         else:
             wide = 0.1 if i % 3 else 0.4
             d, regmap, memmap, inputs, dflt = build_case(ctx, i, wide)
             ctx.count('stream', 'random')
         try:
-            sim, tracer = simulate(d, regmap, memmap, inputs, dflt)
+            sim, tracer, seen, fired = simulate(d, regmap, memmap, inputs, dflt, track)
         except pyrtl.PyrtlError as e:
             ctx.spec_violation('api-built-design-rejected', 'Simulation rejected an API-built design: %s' % e,
                                {'seed': ctx.seed, 'design': i})
             continue
-        dump = nlx.Dump(d.block, net_order=sim.ordered_nets)
+        order = list(sim.ordered_nets)
+        if set(order) != set(d.block.logic) or len(order) != len(d.block.logic):
+            # the simulator does not evaluate exactly the block's nets: the reference semantics is still
+            # evaluated on ALL of them (in a dependency order computed here, not by the simulator)
+            ctx.model_mismatch('Simulation.ordered_nets is not a permutation of block.logic on design %s' % i,
+                               {'seed': ctx.seed, 'design': i})
+            order = list(d.block)
+        dump = nlx.Dump(d.block, net_order=order)
         probes = [(m.id, a) for m in d.mems for a in range(1 << m.addrwidth)]
         expr = '%s %d %s %s %s %s' % (
             dump.coq(), dflt, dump.regmap(regmap), dump.memmap(memmap), dump.inputs(inputs),
@@ -146,9 +187,20 @@ def run(ctx):
         names = dump.names()
         # position of each wire's driver in the simulator's order: the first difference reported is the
         # earliest one in dependency order, so the signature names the op that computed a wrong value
-        rank = {nn.dests[0].name: k for k, nn in enumerate(sim.ordered_nets) if nn.dests}
+        rank = {nn.dests[0].name: k for k, nn in enumerate(order) if nn.dests}
         by_dep = sorted(range(len(names)), key=lambda k: rank.get(names[k], -1))
-        impl_trace = [[tracer.trace[nm][t] for nm in names] for t in range(len(inputs))]
+        traced = set(tracer.trace)
+        impl_trace = [[tracer.trace[nm][t] if nm in traced else seen[t][nm] for nm in names]
+                      for t in range(len(inputs))]
+        ctx.count('asserts-fired', fired)
+        ctx.count('untraced-wires', len(names) - len(traced))
+        for t in range(len(inputs)):
+            diff = [nm for nm in names if nm in traced and
+                    (len(tracer.trace[nm]) != len(inputs) or tracer.trace[nm][t] != seen[t][nm])]
+            if diff:
+                ctx.spec_violation('trace-vs-inspect', 'SimulationTrace.trace and Simulation.inspect disagree on %s '
+                                   'at cycle %d of design %s' % (diff[:3], t, i), {'seed': ctx.seed, 'design': i})
+                break
         impl_mem = [sim.memvalue[mid].get(a, dflt) for (mid, a) in probes]
         varying = sum(1 for k, nm in enumerate(names)
                       if len({row[k] for row in impl_trace}) > 1)
